@@ -8,6 +8,7 @@ import (
 	"fmt"
 	"math/big"
 	"os"
+	"runtime"
 	"strconv"
 	"sync"
 	"time"
@@ -121,6 +122,18 @@ func Interleave(fs ...func()) {
 	close(start)
 	wg.Wait()
 }
+
+// Threads runs f as the first logical thread of a scheduling session in which `go` statements create further logical
+// threads (see Interleave for the granularity).  Natively it just calls f: the Go runtime schedules the goroutines.
+func Threads(f func()) { f() }
+
+// DelayBound limits the schedules explored by the symbolic interpreter to those the default scheduler (the running
+// thread continues while it can, otherwise round-robin) reaches with at most k delays (a delay skips the thread that
+// would run next); k < 0 = every schedule.  No effect natively.
+func DelayBound(k int) {}
+
+// SingleProc makes a native replay run on one processor (schedule-dependent hangs show up most easily there).
+func SingleProc() { runtime.GOMAXPROCS(1) }
 
 // StepBudget(n, msg): under the symbolic interpreter the code that follows may execute at most n more SSA instructions
 // on this path, otherwise the path is reported as violating msg (a termination bound); StepBudget(0, "") lifts it.
